@@ -25,6 +25,12 @@ type Clause struct {
 type LoopSpec struct {
 	Invariants []*Clause
 	Decreases  *Clause
+	// Starts hold on entry only; Steps hold at every back edge, where a name denotes the value
+	// carried into the next iteration and x$head the value the iteration started with. Together
+	// with the exit condition they say which iterations happen (e.g. i == 0, i == i$head + 1:
+	// every index below the bound is visited, in order).
+	Starts []*Clause
+	Steps  []*Clause
 }
 
 // SiteAssert with LetName != "" binds a contract-level name to the clause's value at that point
@@ -538,6 +544,10 @@ func (c *Contracts) parseFile(path, pkgPath string) error {
 				ls.Invariants = append(ls.Invariants, cl)
 			case "decreases":
 				ls.Decreases = cl
+			case "starts":
+				ls.Starts = append(ls.Starts, cl)
+			case "step":
+				ls.Steps = append(ls.Steps, cl)
 			default:
 				return fmt.Errorf("%s:%d: loop clause %q", path, r.line, f[1])
 			}
